@@ -1,4 +1,5 @@
 import CorsVerif.Proofs.Serve
+import CorsVerif.Proofs.Translated
 /-
   C11 — Preflights are answered by the middleware alone; everything else passes intact.
 
@@ -139,5 +140,19 @@ example : (Req.isPreflight { method := OPTIONS, hdrs := fun k =>
 #print axioms C11_passthrough
 #print axioms C11_passthrough_reconfigure_nil
 #print axioms C11
+
+
+/-- **C11 (translated handlers).** `handleNonCORS` and `handleCORSActual` — everything the middleware does to a request
+that is not a preflight — are translated from /repo's middleware.go into Lean on every run (Gen/Pipeline.lean); for every
+internal configuration, response headers already present, Origin value and method kind each translated function equals
+the hand-written model's.  An edit of one of these Go functions that changes its meaning, or leaves the translated
+subset of Go, breaks this obligation. -/
+theorem C11_handlers_translated (icfg : ICfg) (h : HdrMap) (origin : Bytes) (isOPTIONS : Bool) :
+    Gen.Pipeline.handleNonCORS icfg h isOPTIONS = Serve.handleNonCORS icfg h isOPTIONS ∧
+    Gen.Pipeline.handleCORSActual icfg h origin [origin] isOPTIONS =
+      Serve.handleCORSActual (Serve.modelDec icfg) icfg h origin isOPTIONS :=
+  Translated.handlers_eq icfg h origin isOPTIONS
+
+#print axioms C11_handlers_translated
 
 end Cors
